@@ -92,6 +92,9 @@ def main(argv=None):
 
     pid = args.pid.upper()
     tier = args.tier
+    if tier not in ('quick', 'thorough'):
+        print('INCONCLUSIVE property=%s reason=unknown tier %r (quick | thorough)' % (pid, tier))
+        return 2
     try:
         seed = int(os.environ.get('VERIF_SEED', '0'))
     except ValueError:
@@ -146,9 +149,16 @@ def main(argv=None):
                   % (want_key, hits[0]['what'][:300], len(hits), only, nshards, seed, tier))
             return 1
         other = sorted(set(v['key'] for v in merged['violations']))
-        print('%s replay: key %s not reproduced on the current tree (shard %d/%d, seed %d, tier %s)%s'
-              % (pid, want_key, only, nshards, seed, tier, '; other keys seen: %s' % other if other else ''))
-        return 1 if other else 0
+        crashed = [r for r in merged['inconclusive'] if r.startswith('shard ') or r.startswith('monitor error')]
+        if crashed or merged['evaluations'] == 0:
+            print('INCONCLUSIVE property=%s reason=replay did not run to completion: %s' % (pid, '; '.join(crashed[:3]) or 'no case evaluated'))
+            return 2
+        if other:
+            # not the recorded witness, but the replayed shard does violate the property: report it through the normal path
+            return report(pid, tier, seed, merged, replaying=True, nshards=nshards)
+        print('%s replay: key %s not reproduced on the current tree (shard %d/%d, seed %d, tier %s)'
+              % (pid, want_key, only, nshards, seed, tier))
+        return 0
     return report(pid, tier, seed, merged, replaying=False, nshards=nshards)
 
 
@@ -232,10 +242,13 @@ def report(pid, tier, seed, m, replaying=False, nshards=None):
         safe = ''.join(ch if ch.isalnum() or ch in '-_.' else '_' for ch in key)[:80]
         sub = '' if os.path.abspath(os.environ.get('VERIF_REPO', '/repo')) == '/repo' else 'mutant-'
         path = os.path.join('replays', '%s%s-%s-seed%d.json' % (sub, pid, safe, seed))
-        with open(os.path.join(HERE, path), 'w') as fh:
-            json.dump({'property': pid, 'key': key, 'tier': tier, 'seed': seed, 'nshards': nshards or m['shards'],
-                       'count': len(vs), 'first': vs[0], 'more': vs[1:4]}, fh, indent=1,
-                      default=str)
+        try:
+            with open(os.path.join(HERE, path), 'w') as fh:
+                json.dump({'property': pid, 'key': key, 'tier': tier, 'seed': seed, 'nshards': nshards or m['shards'],
+                           'count': len(vs), 'first': vs[0], 'more': vs[1:4]}, fh, indent=1,
+                          default=str)
+        except Exception as exc:
+            path = path + ' (could not be written: %r)' % (exc,)
         lines.append('VIOLATION property=%s replay=%s' % (pid, path))
         lines.append('  # %s: %s (%d witnesses)' % (key, vs[0]['what'][:300], len(vs)))
 
@@ -262,17 +275,20 @@ def report(pid, tier, seed, m, replaying=False, nshards=None):
         'violations': len(new),
         'verdict': 'violated' if new else ('inconclusive' if m['inconclusive'] else 'held'),
     }
-    on_repo = os.path.abspath(os.environ.get('VERIF_REPO', '/repo')) == '/repo'
-    if not replaying and on_repo:   # evidence only ever comes from /repo itself
-        os.makedirs(os.path.join(HERE, 'evidence'), exist_ok=True)
-        tmp = os.path.join(HERE, 'evidence', '.%s.json.tmp' % pid)
-        with open(tmp, 'w') as fh:
-            json.dump(ev, fh, indent=1, default=str)
-            fh.write('\n')
-        os.replace(tmp, os.path.join(HERE, 'evidence', '%s.json' % pid))
-
     for l in lines:
         print(l)
+    sys.stdout.flush()
+    on_repo = os.path.abspath(os.environ.get('VERIF_REPO', '/repo')) == '/repo'
+    if not replaying and on_repo:   # evidence only ever comes from /repo itself
+        try:
+            os.makedirs(os.path.join(HERE, 'evidence'), exist_ok=True)
+            tmp = os.path.join(HERE, 'evidence', '.%s.json.tmp' % pid)
+            with open(tmp, 'w') as fh:
+                json.dump(ev, fh, indent=1, default=str)
+                fh.write('\n')
+            os.replace(tmp, os.path.join(HERE, 'evidence', '%s.json' % pid))
+        except Exception as exc:
+            m['inconclusive'].append('evidence file could not be written: %r' % (exc,))
     if new:
         rc = 1
     elif m['inconclusive']:
@@ -286,5 +302,21 @@ def report(pid, tier, seed, m, replaying=False, nshards=None):
     return rc
 
 
+def guarded_main():
+    """a failure of the launcher itself is never a verdict on the code under test: INCONCLUSIVE, exit 2"""
+    try:
+        return main()
+    except SystemExit:
+        raise
+    except BaseException as exc:
+        if isinstance(exc, KeyboardInterrupt):
+            raise
+        import traceback
+        traceback.print_exc()
+        pid = next((a for a in sys.argv[1:] if a[:1] == 'C' and a[1:].isdigit()), '?')
+        print('INCONCLUSIVE property=%s reason=launcher error: %r' % (pid, exc))
+        return 2
+
+
 if __name__ == '__main__':
-    sys.exit(main())
+    sys.exit(guarded_main())
